@@ -1,8 +1,10 @@
 package checks
 
 import (
+	"encoding/json"
 	"fmt"
 	"math/rand"
+	"net/http"
 	"os"
 	"path/filepath"
 	"regexp"
@@ -45,6 +47,8 @@ var maxRegister = porcupine.Model{
 		return output.(int64) == st, st
 	},
 }
+
+const c20Token = "c20-token"
 
 type c20Op struct {
 	Part   string
@@ -108,7 +112,7 @@ func runC20(tier string, _ []string) int {
 	c := vlib.NewCtx("C20", tier, "exploration")
 	vlib.SetPortBlock(20)
 	raceBuild := strings.Contains(os.Getenv("GORACE"), "log_path")
-	c.SetRule("per history (race-detector build): a fresh instance, 8-32 bus clients on their own connections issue ~150-400 operations against 3 nodes x 2 types x 2 keys: acknowledged node-point and edge-point writes with unique (timestamp, value), node reads (split into one read per identity), admin.storeVerify; a minority of writers use the library's own 1 s acknowledgement timeout; random 0-2 ms delays are injected at the store.afterNodeWrite / store.afterEdgeWrite hook sites (between database commit and rebroadcast/reply). Every call is recorded at the client boundary (call time before sending, return time after the reply, one monotonic clock); an unanswered operation stays open to the end of the history. Monitors: (1) porcupine linearizability of each identity's history against a max-timestamp register, (2) every request answered, (3) final content = newest accepted write per identity (C01) with consistent hashes (C03), (4) race detector reports involving simpleiot code, (5) Server.Stop during or after load: Run returns and the same file opens again with the acknowledged writes. distinct = (clients, stop mode, fingerprint class: overlapping pairs bucket, concurrent read/write pairs bucket)")
+	c.SetRule("per history (race-detector build): a fresh instance, 8-32 bus clients on their own connections issue ~150-400 operations against 3 nodes (a chain three deep in every other history, so that one write moves three ancestor hashes) x 2 types x 2 keys: acknowledged node-point and edge-point writes with unique (timestamp, value), node reads (split into one read per identity), admin.storeVerify; a fifth of the clients write through the library's SendNodePoints (1 s deadline), another fifth read and write through the HTTP API (so api handlers run concurrently with bus handlers); ~3% of the operations create a new leaf node below one of the nodes while its ancestors' hashes are moving; random 0-2 ms delays are injected at the store.afterNodeWrite / store.afterEdgeWrite hook sites (between database commit and rebroadcast/reply). Every call is recorded at the client boundary (call time before sending, return time after the reply, one monotonic clock); an unanswered operation stays open to the end of the history. Monitors: (1) porcupine linearizability of each identity's history against a max-timestamp register, (2) every request answered, (3) final content = newest accepted write per identity (C01) with consistent hashes (C03), (4) race detector reports involving simpleiot code, (5) Server.Stop during or after load: Run returns and the same file opens again with the acknowledged writes. distinct = (clients, stop mode, fingerprint class: overlapping pairs bucket, concurrent read/write pairs bucket)")
 	c.Assume("schedules are sampled, not enumerated; a clean race-detector run means no report on the executed paths")
 	if !raceBuild {
 		c.Assume("this run was NOT built with -race")
@@ -133,7 +137,7 @@ func runC20(tier string, _ []string) int {
 	var tsCounter int64
 	vlib.Parallel(nHist, 4, func(i int) {
 		r := vlib.NewR(c.Seed, "c20", i)
-		in, err := vlib.StartInstance(vlib.InstCfg{ID: fmt.Sprintf("c20-%d", i)})
+		in, err := vlib.StartInstance(vlib.InstCfg{ID: fmt.Sprintf("c20-%d", i), AuthToken: c20Token})
 		if err != nil {
 			c.Inconclusive(err.Error())
 			return
@@ -152,8 +156,15 @@ func runC20(tier string, _ []string) int {
 			return
 		}
 		nodes := []string{fmt.Sprintf("h%d-n1", i), fmt.Sprintf("h%d-n2", i), fmt.Sprintf("h%d-n3", i)}
+		// h-n1 under the root, h-n2 under h-n1, h-n3 under h-n2: a write at depth moves three ancestor hashes
+		parentOf := map[string]string{nodes[0]: in.RootID, nodes[1]: nodes[0], nodes[2]: nodes[1]}
+		if i%2 == 1 {
+			parentOf[nodes[1]], parentOf[nodes[2]] = in.RootID, in.RootID // flat: all three below the root
+		}
+		httpBase := fmt.Sprintf("http://127.0.0.1:%d/v1/nodes/", in.Ports[1])
+		httpCl := &http.Client{Timeout: 30 * time.Second}
 		for _, n := range nodes {
-			if e, err := vlib.SendAck(setup, vlib.EdgeSubj(n, in.RootID), data.Points{{Type: data.PointTypeTombstone, Time: time.Unix(0, 1)}, {Type: data.PointTypeNodeType, Text: "variable"}}); err != nil || e != "" {
+			if e, err := vlib.SendAck(setup, vlib.EdgeSubj(n, parentOf[n]), data.Points{{Type: data.PointTypeTombstone, Time: time.Unix(0, 1)}, {Type: data.PointTypeNodeType, Text: "variable"}}); err != nil || e != "" {
 				c.Violate("store:legal-write-refused", fmt.Sprint(err, e), nil)
 				return
 			}
@@ -164,6 +175,7 @@ func runC20(tier string, _ []string) int {
 		var mu sync.Mutex
 		var hist []*c20Op
 		sent := map[string]map[int64]float64{} // partition -> ts -> value
+		created := map[string]float64{}        // parent/id of acknowledged creations -> value of its point
 		record := func(o *c20Op) {
 			mu.Lock()
 			hist = append(hist, o)
@@ -185,6 +197,7 @@ func runC20(tier string, _ []string) int {
 			}
 			cr := rand.New(rand.NewSource(r.Int63()))
 			libSender := cl%5 == 4
+			httpClient := cl%5 == 3
 			wg.Add(1)
 			go func(cl int, nc *nats.Conn) {
 				defer wg.Done()
@@ -215,7 +228,7 @@ func runC20(tier string, _ []string) int {
 						subj := vlib.NodeSubj(node)
 						if edge {
 							part = fmt.Sprintf("e|%s|%s|%s", node, typ, nk)
-							subj = vlib.EdgeSubj(node, in.RootID)
+							subj = vlib.EdgeSubj(node, parentOf[node])
 						}
 						mu.Lock()
 						if sent[part] == nil {
@@ -228,7 +241,21 @@ func runC20(tier string, _ []string) int {
 						pts := data.Points{{Type: typ, Key: key, Time: time.Unix(0, ts), Value: val, Origin: fmt.Sprint("c", cl)}}
 						var e string
 						var err error
-						if libSender && !edge {
+						if httpClient && !edge {
+							// through the HTTP API (which itself uses the library's 1 s deadline towards the store)
+							mu.Lock()
+							o.Lib = true
+							mu.Unlock()
+							body, _ := json.Marshal(pts)
+							var res httpResp
+							res, err = doHTTP(httpCl, "POST", httpBase+node+"/points", c20Token, true, body, "application/json")
+							if err == nil && res.Status != 200 {
+								err = fmt.Errorf("http %d %s", res.Status, res.Body)
+							}
+							if err == nil {
+								c.Count("http_writes_acknowledged", 1)
+							}
+						} else if libSender && !edge {
 							// the library's own 1 s acknowledgement deadline is wall-clock: its expiry on a
 							// loaded machine is not "never answered"; the write stays open for monitor (1)
 							mu.Lock()
@@ -249,7 +276,23 @@ func runC20(tier string, _ []string) int {
 						}
 					case roll < 95:
 						call := mono()
-						ns, err := client.GetNodes(nc, in.RootID, node, "", false)
+						var ns []data.NodeEdge
+						var err error
+						if httpClient {
+							var res httpResp
+							res, err = doHTTP(httpCl, "GET", httpBase+node, c20Token, true, []byte(parentOf[node]), "")
+							if err == nil && res.Status != 200 {
+								err = fmt.Errorf("http %d %s", res.Status, res.Body)
+							}
+							if err == nil {
+								err = json.Unmarshal([]byte(res.Body), &ns)
+							}
+							if err == nil {
+								c.Count("http_reads", 1)
+							}
+						} else {
+							ns, err = client.GetNodes(nc, parentOf[node], node, "", false)
+						}
 						ret := mono()
 						if err != nil || len(ns) != 1 {
 							mu.Lock()
@@ -269,6 +312,27 @@ func runC20(tier string, _ []string) int {
 								record(&c20Op{Part: fmt.Sprintf("n|%s|%s|%s", node, t, kk), Client: cl, In: regIn{false, 0}, Out: got, Call: call, Ret: ret, Kind: "read"})
 								record(&c20Op{Part: fmt.Sprintf("e|%s|%s|%s", node, t, kk), Client: cl, In: regIn{false, 0}, Out: gotE, Call: call, Ret: ret, Kind: "read"})
 							}
+						}
+					case roll < 98:
+						// create a leaf below one of the nodes (edge first, then a point), concurrently with
+						// the writes that move the same ancestors' hashes
+						id := fmt.Sprintf("h%d-x%d-%d", i, cl, k)
+						par := node
+						e, err := vlib.SendAck(nc, vlib.EdgeSubj(id, par), data.Points{{Type: data.PointTypeTombstone, Time: time.Unix(0, 1700000000e9)}, {Type: data.PointTypeNodeType, Text: "variable"}})
+						if err == nil && e != "" {
+							record(&c20Op{Part: "create", Client: cl, Kind: "write-refused:create " + e, Call: mono()})
+							continue
+						}
+						acked := err == nil
+						e, err = vlib.SendAck(nc, vlib.NodeSubj(id), data.Points{{Type: "value", Time: time.Unix(0, 1700000000e9+int64(k)), Value: float64(cl*1000 + k), Origin: fmt.Sprint("c", cl)}})
+						if err == nil && e != "" {
+							record(&c20Op{Part: "create", Client: cl, Kind: "write-refused:create-point " + e, Call: mono()})
+							continue
+						}
+						if acked && err == nil {
+							mu.Lock()
+							created[par+"/"+id] = float64(cl*1000 + k)
+							mu.Unlock()
 						}
 					default:
 						call := mono()
@@ -427,7 +491,7 @@ func runC20(tier string, _ []string) int {
 		}
 		for part, tss := range sent {
 			f := strings.Split(part, "|")
-			pl := w[in.RootID+"/"+f[1]]
+			pl := w[parentOf[f[1]]+"/"+f[1]]
 			pts := pl.Points
 			if f[0] == "e" {
 				pts = pl.EdgePoints
@@ -448,6 +512,15 @@ func runC20(tier string, _ []string) int {
 				}
 			}
 		}
+		for key, v := range created {
+			pl, ok := w[key]
+			p, okp := pl.Points.Find("value", "")
+			if !ok || !okp || p.Value != v {
+				c.Violate("concurrency:acknowledged-write-lost", fmt.Sprintf("node %s was created and written with acknowledgement during the load but is not there afterwards (found=%v point=%v)", key, ok, okp), wit(nil))
+				return
+			}
+		}
+		c.Count("nodes_created_under_load", int64(len(created)))
 		c.Count("histories_completed", 1)
 		ob := 0
 		for overlap>>uint(ob) > 0 {
